@@ -209,11 +209,25 @@ def reflists(prog, run, rule):
                     txt = astq.src(x, 70) if x is not None else None
                     ok = None
                     if x is not None:
-                        calls = [astq.callee_name(prog, m, z) for z in ast.walk(x) if isinstance(z, ast.Call)]
-                        if any(z in ORDER_LOSING for z in calls):
-                            ok = False
-                        elif txt in ("self.ref_ind", "self._initial_ref_ind") or (isinstance(x, ast.Name) and x.id in params) or "copy.deepcopy(" in txt:
-                            ok = True
+                        # a local that is given its value on several paths (a default filled in when the argument is None): every value counts
+                        cands = [x]
+                        if isinstance(x, ast.Name) and x.id not in params:
+                            vals_ = astq.reaching_values(m, c, x.id)
+                            if vals_:
+                                cands = vals_
+                        verdicts = []
+                        for x_ in cands:
+                            t_ = astq.src(x_, 70)
+                            calls = [astq.callee_name(prog, m, z) for z in ast.walk(x_) if isinstance(z, ast.Call)]
+                            if any(z in ORDER_LOSING for z in calls):
+                                verdicts.append(False)
+                            elif t_ in ("self.ref_ind", "self._initial_ref_ind") or (isinstance(x_, ast.Name) and x_.id in params) or "copy.deepcopy(" in t_:
+                                verdicts.append(True)
+                            else:
+                                verdicts.append(None)
+                        ok = False if any(v is False for v in verdicts) else (True if all(v is True for v in verdicts) else None)
+                        if len(cands) > 1:
+                            txt = " | ".join(astq.src(x_, 40) for x_ in cands)
                     run.ob(rule, m.qual, "the split is called with the reference lists as given", ok, f"`pre_multisetup(.., {txt})`", witness=str(txt), file=f, node=c)
     if not n:
         run.ob(rule, "pyoma2.setup.multi", "reference lists", None, "no store of self.ref_ind / call of pre_multisetup found")
